@@ -315,3 +315,57 @@ def kf_across_sets(named_a: bool, named_b: bool) -> int:
     post: _ == 0
     """
     return across_sets_check(True, named_a, named_b)
+
+
+# ---------------------------------------------------------------------------- copy numbers vs. origin references
+
+def copy_origin_check(same01, same12, same02, e0, e1, e2, r, before):
+    """Three comments added through the public API with a symbolic pattern of equal names and symbolic explicit origin
+    references (0 = none given), before or after the origin exists: same-named objects get distinct copy numbers
+    (= number of earlier same-named objects) and no two objects share (origin, copy, name) once the origin is there."""
+    if same01 and same12 and not same02:
+        return 0                           # not an equivalence pattern
+    n0 = 'A'
+    n1 = 'A' if same01 else 'B'
+    n2 = n0 if same02 else (n1 if same12 else 'C')
+    if (same01 and same02) != (same01 and same12) and same01:
+        return 0
+    names = [n0, n1, n2]
+    ex = [e0, e1, e2]
+    df, (lf,) = new_file(1)
+    if not before:
+        add_origin(lf, 'O', ref=r if r > 0 else None)
+    items = [lf.add_comment(names[k], origin_reference=ex[k] if ex[k] > 0 else None) for k in range(3)]
+    if before:
+        add_origin(lf, 'O', ref=r if r > 0 else None)
+    for k in range(3):
+        earlier = 0
+        for j in range(k):
+            if names[j] == names[k]:
+                earlier = earlier + 1
+        if items[k].copy_number != earlier:
+            return 1
+    ids = [(it.origin_reference, it.copy_number, it.name) for it in items]
+    for k in range(3):
+        if ids[k][0] is None:
+            return 2
+        for j in range(k):
+            if ids[j] == ids[k]:
+                return 3
+    return 0
+
+
+def ob_copy_origin(same01: bool, same12: bool, same02: bool, e0: int, e1: int, e2: int, r: int, before: bool) -> int:
+    """
+    pre: 0 <= e0 <= 3 and 0 <= e1 <= 3 and 0 <= e2 <= 3 and 0 <= r <= 3
+    post: _ == 0
+    """
+    return copy_origin_check(same01, same12, same02, e0, e1, e2, r, before)
+
+
+def reach_copy_origin(same01: bool, same12: bool, same02: bool, e0: int, e1: int, e2: int, r: int, before: bool) -> int:
+    """
+    pre: 0 <= e0 <= 3 and 0 <= e1 <= 3 and 0 <= e2 <= 3 and 0 <= r <= 3
+    post: _ != 0
+    """
+    return copy_origin_check(same01, same12, same02, e0, e1, e2, r, before)
